@@ -2,6 +2,7 @@ package parser
 
 import (
 	"fmt"
+	"strings"
 
 	"github.com/antlr4-go/antlr/v4"
 )
@@ -11,8 +12,21 @@ type Evaluator struct {
 
 	rule string
 	tree antlr.ParseTree
+	// syntaxErr is set when the rule is not a sentence of the grammar; such
+	// a rule is never evaluated, Process reports this error instead
+	syntaxErr error
 
 	testHookPanic func()
+}
+
+// syntaxErrorListener collects the errors reported by the lexer and the parser.
+type syntaxErrorListener struct {
+	*antlr.DefaultErrorListener
+	errs []string
+}
+
+func (l *syntaxErrorListener) SyntaxError(recognizer antlr.Recognizer, offendingSymbol interface{}, line, column int, msg string, e antlr.RecognitionException) {
+	l.errs = append(l.errs, fmt.Sprintf("line %d:%d %s", line, column, msg))
 }
 
 func NewEvaluator(rule string) (ret *Evaluator, retErr error) {
@@ -24,18 +38,33 @@ func NewEvaluator(rule string) (ret *Evaluator, retErr error) {
 			retErr = fmt.Errorf("%q", info)
 		}
 	}()
-	input := antlr.NewInputStream(rule)
+	// white space around the rule (e.g. the newline at the end of a file) is
+	// not part of it
+	input := antlr.NewInputStream(strings.TrimSpace(rule))
+	listener := &syntaxErrorListener{DefaultErrorListener: antlr.NewDefaultErrorListener()}
 	lex := NewJsonQueryLexer(input)
 	lex.RemoveErrorListeners()
+	lex.AddErrorListener(listener)
 	tokens := antlr.NewCommonTokenStream(lex, antlr.TokenDefaultChannel)
 	p := NewJsonQueryParser(tokens)
-	// TODO: maybe log properly
 	p.RemoveErrorListeners()
+	p.AddErrorListener(listener)
 	tree := p.Query()
 
+	// the whole text has to be one query: no lexical or syntax error and
+	// nothing left over after it
+	var syntaxErr error
+	if len(listener.errs) > 0 {
+		syntaxErr = fmt.Errorf("Invalid rule: %s", strings.Join(listener.errs, "; "))
+	} else if next := tokens.LT(1); next.GetTokenType() != antlr.TokenEOF {
+		syntaxErr = fmt.Errorf("Invalid rule: line %d:%d unexpected input %q after the end of the rule",
+			next.GetLine(), next.GetColumn(), next.GetText())
+	}
+
 	return &Evaluator{
-		rule: rule,
-		tree: tree,
+		rule:      rule,
+		tree:      tree,
+		syntaxErr: syntaxErr,
 	}, nil
 }
 
@@ -50,6 +79,9 @@ func (e *Evaluator) LastDebugErr() error {
 
 func (e *Evaluator) Process(items map[string]interface{}) (ret bool, retErr error) {
 	e.lastDebugErr = nil
+	if e.syntaxErr != nil {
+		return false, e.syntaxErr
+	}
 	// antlr lib has panics for exceptions so we have to put a recover here
 	// in the unlikely case there is an exception
 	defer func() {
